@@ -311,6 +311,7 @@ func extractC09(c *ctx) (Facts, error) {
 	bad := c09Loop{dir: ".other \"missing\"", filter: ".tt", body: ".unknown \"missing\""}
 	mw, pd, sd := bad, bad, bad
 	subCtxFirst := false
+	pubNilGuard := false
 
 	// --- handler.run: the wrap loop
 	if fd := get("handler", "run"); fd != nil {
@@ -455,6 +456,15 @@ func extractC09(c *ctx) (Facts, error) {
 		sh, err := c.foldLoop(fd, "")
 		note(err)
 		pd = sh
+		// the function leaves a nil publisher alone: first statement `if h.publisher == nil { return nil }`
+		if len(fd.Type.Params.List) == 1 && len(fd.Body.List) > 0 {
+			hp := fd.Type.Params.List[0].Names[0].Name
+			if is, ok := fd.Body.List[0].(*ast.IfStmt); ok && is.Init == nil && is.Else == nil &&
+				c.src(is.Cond) == hp+".publisher == nil" && c.src(is.Body) == "{ return nil }" {
+				pubNilGuard = true
+			}
+		}
+		facts["pubdec_nil_publisher_guard_first"] = pubNilGuard
 		facts["pubdec_top_level_loops"] = sh.nLoops
 		facts["pubdec_loop_over_router_list"] = strings.HasSuffix(sh.over, ".publisherDecorators")
 		facts["pubdec_acc_init_is_handler_publisher"] = strings.HasSuffix(sh.accInit, ".publisher")
@@ -511,6 +521,7 @@ func extractC09(c *ctx) (Facts, error) {
 	sb.WriteString("import WmModel.ChainGo\nnamespace Wm.ChainGo.Gen\nopen Wm.ChainGo\n\n")
 	fmt.Fprintf(&sb, "/-- handler.run: the middleware wrap loop -/\ndef mwLoop : Loop := %s\n\n", mw.lean())
 	fmt.Fprintf(&sb, "/-- decorateHandlerPublisher -/\ndef pubDecLoop : Loop := %s\n\n", pd.lean())
+	fmt.Fprintf(&sb, "/-- decorateHandlerPublisher begins with `if h.publisher == nil { return nil }` -/\ndef pubDecNilGuard : Bool := %v\n\n", pubNilGuard)
 	fmt.Fprintf(&sb, "/-- decorateHandlerSubscriber -/\ndef subDecLoop : Loop := %s\n\n", sd.lean())
 	fmt.Fprintf(&sb, "/-- the handler-context decorator is applied to the handler's subscriber before the loop -/\ndef subCtxFirst : Bool := %v\n\n", subCtxFirst)
 	sb.WriteString("end Wm.ChainGo.Gen\n")
